@@ -87,6 +87,13 @@ Definition t_despawn (s : tstate) (h : entity) : tstate :=
   | Panic _ => s
   end.
 
+(* spawn_at: whatever entity held the id goes, and its hidden component with it (every generation of that id) *)
+Definition t_spawn_at (u : universe) (s : tstate) (h : entity) (b : bundle) : option tstate :=
+  match w_spawn_at u (t_w s) h b with
+  | Done (w', _) => Some {| t_w := w'; t_prev := filter (fun p => negb (N.eqb (fst p mod W32) (e_id h))) (t_prev s) |}
+  | Panic _ => None
+  end.
+
 (* ---- engine 18 ---- *)
 Definition sort_bits {A} (key : A -> N) (l : list A) : list A :=
   fold_right (fun x acc => (fix ins (l : list A) := match l with
@@ -159,11 +166,9 @@ Fixpoint run_tracker_ops (fuel : nat) (s : tstate) (hs : list entity) (l : list 
           | None => 9 :: run_tracker_ops f s hs rest
           | Some h =>
               if w_contains (t_w s) h then 9 :: run_tracker_ops f s hs rest else
-              match w_spawn_at tu (t_w s) h {| b_key := Some [0; 1; 2]; b_items := [(1, v); (2, 7)] |} with
-              | Done (w', _) =>
-                  0 :: run_tracker_ops f {| t_w := w'; t_prev := filter (fun p => negb (N.eqb (fst p mod W32) (e_id h))) (t_prev s) |}
-                         hs rest
-              | Panic _ => [99]
+              match t_spawn_at tu s h {| b_key := Some [0; 1; 2]; b_items := [(1, v); (2, 7)] |} with
+              | Some s' => 0 :: run_tracker_ops f s' hs rest
+              | None => [99]
               end
           end
       | 6 :: n :: rest =>          (* track: n reads (kind, limit) *)
